@@ -2,6 +2,9 @@
 //! `NotificationHandle`, `NotificationSink`, `Connection` and `Substream` of litep2p over
 //! scripted in-memory carriers. Case/trace format: see coq/C12/Glue.v.
 use crate::util::*;
+
+#[path = "c12_start.rs"]
+mod start;
 use futures::{future::BoxFuture, FutureExt, StreamExt};
 use litep2p::{
     codec::ProtocolCodec,
@@ -1473,7 +1476,13 @@ pub fn main(args: &Args) {
         stored = read_cases(Path::new(d));
     }
     for c in stored.iter() {
-        let (c, t) = if c.first() == Some(&SCHED_MARK) { run_sched(c) } else { run_case(c) };
+        let (c, t) = if c.first() == Some(&start::MARK) {
+            start::run_case(c, true)
+        } else if c.first() == Some(&SCHED_MARK) {
+            run_sched(c)
+        } else {
+            run_case(c)
+        };
         out.emit(&c, &t);
     }
     if args.str("replay").is_some() {
@@ -1481,7 +1490,10 @@ pub fn main(args: &Args) {
     }
     for i in 0..ncases {
         let mut r = rng.fork();
-        let (c, t) = if i % 2 == 0 {
+        // every fourth case belongs to the start stream (real NotificationProtocol), the others alternate
+        let (c, t) = if i % 4 == 3 {
+            start::gen_run(r, thorough)
+        } else if i % 2 == 0 {
             run_case(&gen_case(&mut r, thorough))
         } else {
             gen_run_sched(r, thorough)
